@@ -10,7 +10,7 @@ Mirrored Python (statement by statement):
 * `kappadata/datasets/kd_wrapper.py`  `KDWrapper.__len__/__getattr__` delegation, `dispose`, `root_dataset`, `all_wrappers`,
   `get_wrappers_of_type`, `has_wrapper(_type)`
 * `kappadata/datasets/kd_dataset.py`  the chain ends: `root_dataset = self`, `all_wrappers = []`, …
-* `kappadata/utils/getall_as_tensor.py`  `getall` (fast path if `hasattr(getall_<item>)`, else per-sample loop),
+* `kappadata/utils/getall_as_tensor.py`  `getall` (fast path if `hasattr(getall_<item>)` — truthful through subset/concat layers since repo commit 24251f5 —, else per-sample loop),
   `getall_as_list/numpy/tensor` (value-preserving conversions; after the F02 repair the tensor case returns `items`)
 
 A sample of the stack is identified by `(base id, sample number)`; a base dataset of size `n` answers `getitem_x(k)` by Python
@@ -175,16 +175,33 @@ end
 /-! ### bulk path -/
 
 mutual
+/-- `hasattr(stack, "getall_x")`: a subset answers the name only if the wrapped dataset does, a concat only if all its parts do
+    (`__getattr__` raises `AttributeError` otherwise), a wrapper delegates -/
+def hasGetall : DS → Bool
+  | .base _ _ kind => kind != .absent
+  | .subset _ _ d _ => hasGetall d
+  | .wrap _ _ d => hasGetall d
+  | .concat ds _ => hasGetallAll ds
+def hasGetallAll : List DS → Bool
+  | [] => true
+  | d :: ds => hasGetall d && hasGetallAll ds
+end
+
+mutual
 /-- `stack.getall_x()`: the kind of container that comes back, and its elements -/
 def getall : DS → Except Err (Kind × List Sample)
   | .base id n kind => if kind = .absent then .error .attribute else .ok (kind, (List.range n).map (fun i => (id, i)))
-  | .subset _ _ d idx => match getall d with
+  | .subset _ _ d idx =>
+    if !hasGetall d then .error .attribute else        -- `if not hasattr(self.dataset, item): raise AttributeError`
+    match getall d with
     | .error e => .error e
     | .ok (_, r) => match mapE (pyGet r) idx with      -- [result[i] for i in self.indices]
       | .error e => .error e
       | .ok xs => .ok (.list, xs)
   | .wrap _ _ d => getall d
-  | .concat ds _ => match getallParts ds with
+  | .concat ds _ =>
+    if !hasGetallAll ds then .error .attribute else    -- `if not all(hasattr(dataset, item) for dataset in self.datasets)`
+    match getallParts ds with
     | .error e => .error e
     | .ok xs => .ok (.list, xs)
 /-- the loop of `KDConcatDataset._call_getall` -/
@@ -197,13 +214,6 @@ def getallParts : List DS → Except Err (List Sample)
       | .error e => .error e
       | .ok rs => .ok (r ++ rs)
 end
-
-/-- `hasattr(stack, "getall_x")`: subset and concat answer every `getall_*` name with a partial -/
-def hasGetall : DS → Bool
-  | .base _ _ kind => kind != .absent
-  | .subset _ _ _ _ => true
-  | .wrap _ _ d => hasGetall d
-  | .concat _ _ => true
 
 /-- the slow path of `getall`: `[getitem(i) for i in range(len(dataset))]` -/
 def perSample (d : DS) : Except Err (List Sample) :=
